@@ -899,6 +899,23 @@ func (c *cctx) evalCall(e *ast.CallExpr) cval {
 		c.fail("arr of non-slice")
 		return c.boolVal(True)
 	}
+	// predicate macro
+	if pd, ok := x.eng.cs.Preds[name]; ok {
+		if len(e.Args) != len(pd.Params) {
+			c.fail("%s: want %d arguments", name, len(pd.Params))
+			return c.boolVal(True)
+		}
+		n := *c
+		n.env = map[string]cbind{}
+		for k, v := range c.env {
+			n.env[k] = v
+		}
+		for i, a := range e.Args {
+			r := c.eval(a)
+			n.env[pd.Params[i]] = cbind{r.v, r.t}
+		}
+		return n.eval(pd.Body)
+	}
 	// spec function
 	if sf, ok := x.eng.cs.Specs[name]; ok {
 		return c.callSpec(sf, e)
